@@ -243,3 +243,15 @@ def _malformed(pdu):
         return False
     except specpdu.SpecError:
         return True
+
+
+def extra_stages(tier, seed):
+    from vlib import engine
+    seeds = []
+    for x in range(len(frontends.ALL)):
+        for i, framing in enumerate(FRAMINGS[:4]):
+            pdu = specpdu.encode('req:16', {'address': 2, 'registers': [7, 8]})
+            fr = refframe.build(framing, 1, pdu, 5, 0)
+            seeds.append(bytes([i, 0, x | 16]) + fr)
+            seeds.append(bytes([i, 1, x | 16]) + fr[:-2] + fr)
+    return engine.atheris_stage(PID, tier, seed, 400 if tier == 'quick' else 60000, seeds, max_len=300)
